@@ -11,6 +11,7 @@ import Qfx.Lemmas.CodecDictWalk
 import Qfx.Lemmas.CodecDictExample
 import Qfx.Lemmas.CodecDictStack
 import Qfx.Lemmas.CodecDictNest
+import Qfx.Lemmas.CodecWriteNest
 import Qfx.Lemmas.CodecGroupNested
 open Qfx Qfx.Spec
 
@@ -577,6 +578,19 @@ theorem C13_dict_wellnested_read_back (d : Dicts) (mt : Bytes) (fs : List DNode)
       ((∀ tv ∈ postB, tv.tag ≠ z0.tag) → m.body.getBytes m.fields z0.tag = .ok z0.value) :=
   C13_dict_anydepth_read_back d mt fs ha G S d0 tmplr es t8 t9 t35 z0 t10 preA postB hseg.ok hS hSz hzT hes hn
     hw8 hw9 hw35 hw10 h8 h9 h35 h10 hv hpost hzG hng10 hh10 hbl
+
+/-- THE WRITER SIDE OF THE DICTIONARY ROUND TRIP (the link `C13_roundtrip_dict_full` was missing): `RepeatingGroup.Write` of entries
+    that conform to their template (`Spec.entriesOK`: delimiter in every entry, only template tags, nested instances built with the
+    template's nested template) — the template describing the dictionary's member list `C` of the group (`TmplDict`: element items are leaf
+    members of `C`, group items are groups nested in `C` whose templates describe the nested member lists, recursively) — is the count field
+    followed by a member sequence that is WELL NESTED for the dictionary (`GroupWalk C`), at ANY nesting depth.  This is exactly the
+    hypothesis on the member fields in `C11_sections_dict_items`, `C11_faithful_dict_wellnested` and `C13_dict_wellnested_read_back`:
+    whatever `Write` emits for a dictionary-conforming group, the fixed dictionary-guided parser groups it along its nesting. -/
+theorem C13_write_is_wellnested (G : Tag) (tmpl : List Item) (es : List (List GFld)) (C : List DNode) (htd : TmplDict tmpl C)
+    (hok : entriesOK tmpl es = true) (tvs : List TagValue) (hw : writeGroup G tmpl es = .ok tvs)
+    (hwire : ∀ tv ∈ tvs, IsWire tv) :
+    ∃ W, tvs = countTV G es.length :: W ∧ GroupWalk C W :=
+  writeGroup_groupWalk G tmpl es C htd hok tvs hw hwire
 
 /-- a group as in `C13_read_nested` is itself a well-formed nested block of an enclosing group: it reads back (and is skipped)
     whenever what follows carries a tag of `S'` that is allowed inside (`S`) and is not one of its template tags -/
